@@ -43,6 +43,10 @@ FixedLenBad(f) ==
   \/ f.ty = T_SETTINGS /\ (f.len % 6 # 0 \/ (f.ack /\ f.len > 0))
   \/ f.ty = T_GOAWAY /\ f.len < 8
 
+SidFault(f) == \/ f.sid = 0 /\ f.ty \in {T_DATA, T_HEADERS, T_PRIORITY, T_RST, T_CONT, T_PUSH}
+               \/ f.sid # 0 /\ f.ty \in {T_SETTINGS, T_PING, T_GOAWAY}
+               \/ f.ty = T_PUSH                                             \* 6.6, 8.2: a client never receives pushes' promises from a client
+
 \* would adding inc to window w exceed 2^31-1 ?  (w may be negative; no overflow in TLC's 32-bit ints)
 Overflows(w, inc) == w > 0 /\ inc > MaxWin - w
 
@@ -61,10 +65,11 @@ ConnRules(f, c) ==
     THEN IF c.hb # 0 THEN {CE(E_PROTO)} ELSE {I}
   ELSE IF c.hb # 0 /\ ~(f.ty = T_CONT /\ f.sid = c.hb) THEN {CE(E_PROTO)}   \* 6.10, 4.3
   ELSE IF f.ty = T_CONT /\ c.hb = 0 THEN {CE(E_PROTO)}                      \* 6.10
-  ELSE IF f.sid = 0 /\ f.ty \in {T_DATA, T_HEADERS, T_PRIORITY, T_RST, T_CONT, T_PUSH} THEN {CE(E_PROTO)}
-  ELSE IF f.sid # 0 /\ f.ty \in {T_SETTINGS, T_PING, T_GOAWAY} THEN {CE(E_PROTO)}
-  ELSE IF f.ty = T_PUSH THEN {CE(E_PROTO)}                                  \* 6.6, 8.2
-  ELSE IF FixedLenBad(f) THEN {CE(E_FSIZE)}                                 \* 6.4, 6.5, 6.7, 6.9
+  \* a frame on the wrong kind of stream (6.x: PROTOCOL_ERROR) that also has the wrong size for its type
+  \* (FRAME_SIZE_ERROR) may be answered with either: a receiver checks them in whatever order it likes
+  ELSE IF SidFault(f) \/ FixedLenBad(f)
+    THEN (IF SidFault(f) THEN {CE(E_PROTO)} ELSE {}) \cup
+         (IF FixedLenBad(f) \/ (f.ty = T_PRIORITY /\ f.len # 5) THEN {CE(E_FSIZE)} ELSE {})
   ELSE IF f.ty = T_PRIORITY /\ f.len # 5 THEN {SE(E_FSIZE)}                 \* 6.3
   ELSE IF f.ty = T_SETTINGS THEN
          IF f.ack THEN {P}
@@ -78,9 +83,13 @@ ConnRules(f, c) ==
          IF f.inc = 0 THEN {CE(E_PROTO)}                                    \* 6.9
          ELSE IF Overflows(c.winC, f.inc) THEN {CE(E_FLOW)}                 \* 6.9.1
          ELSE {P}
-  ELSE IF f.ty \in {T_DATA, T_HEADERS} /\ f.padbad THEN {CE(E_PROTO)}       \* 6.1, 6.2
-  ELSE IF f.ty \in {T_HEADERS, T_CONT} /\ f.hbad THEN {CE(E_COMP)}          \* 4.3
   ELSE {}
+
+\* Faults of a frame's content rather than of its framing: padding longer than the payload (6.1, 6.2) and a
+\* header block fragment the HPACK decoder cannot take (4.3).
+ContentFaults(f) ==
+  (IF f.ty \in {T_DATA, T_HEADERS} /\ f.padbad THEN {CE(E_PROTO)} ELSE {}) \cup
+  (IF f.ty \in {T_HEADERS, T_CONT} /\ f.hbad THEN {CE(E_COMP)} ELSE {})
 
 \* Priority information that makes a stream depend on itself (5.3.1)
 SelfDep(f) == f.dep = f.sid /\ f.sid # 0
@@ -138,8 +147,17 @@ StreamRules(f, q, c, s) ==
        ELSE IF f.ty = T_WU THEN {I, CE(E_PROTO)}
        ELSE {I}
 
+\* A frame with a content fault that also breaks a stream rule may be answered for either; a receiver may decode
+\* a header block only when it is complete, so a bad fragment that does not end the block may pass for now.
 Allowed(f, q, c, s) ==
-  LET cr == ConnRules(f, c) IN IF cr # {} THEN cr ELSE StreamRules(f, q, c, s)
+  LET cr == ConnRules(f, c)
+      cf == ContentFaults(f)
+      sr == StreamRules(f, q, c, s)
+  IN IF cr # {} THEN cr
+     ELSE IF cf # {} THEN cf \cup {x \in sr : x.k \in {"serr", "cerr"}}
+                          \* ... or be found malformed (8.1.2.6) from the fields decoded so far
+                          \cup (IF f.ty \in {T_HEADERS, T_CONT} /\ ~f.eh /\ ~f.padbad THEN sr \cup {SE(E_PROTO)} ELSE {})
+     ELSE sr
 
 \* The property's tolerance: a stream error may be answered by a connection error of the same kind.
 Tolerate(R) == R \cup {CE(r.c) : r \in {x \in R : x.k = "serr"}}
